@@ -728,14 +728,14 @@ class Interp:
                     ft = conj([ft, self.exec_block(fr, s.orelse)])
                 finally:
                     self.frames.pop()
-            for h in s.handlers:
-                self.note(f"{fr.fi.qualname}: exception handler not interpreted")
+            if s.handlers:
+                # exceptional paths are not part of the property (what the architecture contains when the scan succeeds)
+                self.note(f"{fr.fi.qualname}: exception handlers are not interpreted (only the path on which nothing is raised)")
             if s.finalbody:
                 self.exec_block(fr, s.finalbody)
             return ft
         if isinstance(s, ast.Match):
-            self.note(f"{fr.fi.qualname}: match statement not interpreted")
-            return TRUE
+            return self.exec_match(fr, s)
         if isinstance(s, ast.ClassDef):
             return TRUE
         self.note(f"{fr.fi.qualname}: statement {type(s).__name__} not interpreted")
@@ -755,15 +755,47 @@ class Interp:
 
     def exec_if(self, fr: Frame, s: ast.If) -> Formula:
         c = self.bf(fr, s.test)
+        return self.branch(fr, c, s.body, s.orelse)
+
+    def exec_match(self, fr: Frame, s: ast.Match) -> Formula:
+        """A match statement is a chain of branches whose conditions the model does not know (free atoms with the subject's taint)."""
+        subject = self.ev(fr, s.subject)
+        t = self.value_taint(subject)
+
+        def chain(i: int) -> Formula:
+            if i == len(s.cases):
+                return TRUE
+            case = s.cases[i]
+            irrefutable = isinstance(case.pattern, ast.MatchAs) and case.pattern.pattern is None and case.guard is None
+            c = TRUE if irrefutable else self.free(f"CASE[{key(subject)}:{norm(case.pattern, 30)}@{s.lineno}]", t)
+            if case.guard is not None:
+                c = conj([c, self.bf(fr, case.guard)])
+            for n in ast.walk(case.pattern):
+                nm = getattr(n, "name", None)
+                if isinstance(nm, str):
+                    fr.env[nm] = Unknown(f"{key(subject)}~{nm}", taint_of(subject))
+            return self.branch(fr, c, case.body, lambda: chain(i + 1))
+
+        return chain(0)
+
+    def branch(self, fr: Frame, c: Formula, body, orelse) -> Formula:
+        """Executes `body` under c and `orelse` under not c (statement lists or callables) and merges the bindings."""
+
+        def run(blk) -> Formula:
+            return blk() if callable(blk) else self.exec_block(fr, blk)
+
+        def kinds(blk) -> set:
+            return {"fall", "continue", "break"} if callable(blk) else _exit_kinds(blk)
+
         if c == TRUE:
-            return self.exec_block(fr, s.body)
+            return run(body)
         if c == FALSE:
-            return self.exec_block(fr, s.orelse)
+            return run(orelse)
         env0 = fr.env
         fr.env = dict(env0)
         self.frames.append(c)
         try:
-            ft1 = self.exec_block(fr, s.body)
+            ft1 = run(body)
         finally:
             self.frames.pop()
         env1 = fr.env
@@ -771,14 +803,14 @@ class Interp:
         nc = f_not(c)
         self.frames.append(nc)
         try:
-            ft2 = self.exec_block(fr, s.orelse)
+            ft2 = run(orelse)
         finally:
             self.frames.pop()
         env2 = fr.env
         # a branch that ends in continue / break still hands its bindings on (to the next iteration / to the code after the
         # loop): only return / raise make them irrelevant
-        gone1 = ft1 == FALSE and not (_exit_kinds(s.body) & {"continue", "break"})
-        gone2 = ft2 == FALSE and not (_exit_kinds(s.orelse) & {"continue", "break"})
+        gone1 = ft1 == FALSE and not (kinds(body) & {"continue", "break"})
+        gone2 = ft2 == FALSE and not (kinds(orelse) & {"continue", "break"})
         if gone1 and gone2:
             fr.env = env0
             return FALSE
